@@ -893,6 +893,13 @@ pub fn c18(thorough: bool, seed: u64) -> CheckOutput {
             ents.push(Ent::Bytes(vec![b; len]));
         }
     }
+    // strings whose LENGTH is special: around every multiple of 256 up to 1 KiB, and 4 KiB
+    // (a remaining-length computation narrowed to a byte, a page-sized buffer)
+    for len in [254usize, 255, 256, 257, 258, 511, 512, 513, 767, 768, 769, 1023, 1024, 1025, 4095, 4096, 4097] {
+        ents.push(Ent::Bytes(rng.bytes(len)));
+        ents.push(Ent::Bytes(vec![0u8; len]));
+        ents.push(Ent::Bytes(vec![0xffu8; len]));
+    }
     // 8-byte patterns read as doubles: infinities, NaNs with every low payload nibble and both
     // signs, subnormals, -0.0, the largest finite value - in both byte orders, alone and repeated
     let mut dbl: Vec<u64> = vec![
@@ -1030,7 +1037,7 @@ pub fn c18(thorough: bool, seed: u64) -> CheckOutput {
             // every scalar draw on its own, at the start of the input and after k bytes were
             // consumed (so that each one gets to decode every part of the string): no panic, and
             // the same answer twice
-            for k in [0usize, 1, 2, 3, 4, 7, 8, 16] {
+            for k in [0usize, 1, 2, 3, 4, 7, 8, 16, 255, 256, 257] {
                 let single = |s: &mut GenerationSource, which: usize| -> u64 {
                     for _ in 0..k {
                         s.gen_u8();
